@@ -4,6 +4,7 @@ monitor: offline history checker over (operation log of 1..3 actor threads, mess
 activated connections), executed under the deterministic scheduler (vlib.detsched) with a ticking
 virtual clock; schedules: sequential, random walk, PCT and bounded-preemption enumeration."""
 import json
+import zlib
 import random
 
 from vlib import rec
@@ -88,6 +89,20 @@ class World:
         M2 = type('M5', (M,), {'read_x': M.read_x, 'write_x': M.write_x, 'read_s': M.read_s, 'write_s': M.write_s,
                                 'read_a': M.read_a, 'write_a': M.write_a, '__module__': __name__})
         node = self.nodes.Node({'m': {'cls': M2, 'description': 'x'}}).build()
+        # other module code listens to the parameters (Module.addCallback / registerCallbacks) - and such a listener may
+        # fail: a one-argument function is called with (value, error) for error announcements (TypeError) and this one
+        # also refuses some values.  A failing listener must not keep the update from the connections.
+        import frappy.errors as E_
+        self.const_err = {pn: E_.HardwareError('constant') for pn in ('x', 's', 'a')}      # one stored error object per read method
+        mobj = node.secnode.modules['m']
+        self.listener_failures = fails = [0]
+
+        def listener(value):
+            if zlib.crc32(repr(value).encode()) % 3 == 0:
+                fails[0] += 1
+                raise ValueError('listener can not handle this value')
+        for pn in ('x', 's'):
+            mobj.addCallback(pn, listener)
         wrapped = type(node.secnode.modules['m'])
         n = self.D.watch_lines(*self.watch, wrapped.read_x, wrapped.write_x)
         self.r.maximum('line_watched_code_objects', n)
@@ -111,7 +126,7 @@ class World:
             ops = []
             for _ in range(rng.randint(3, 6) if nactors > 1 else rng.randint(6, 14)):
                 u += 1
-                ops.append([rng.choice(['read_ok', 'read_same', 'read_err', 'read_sameerr', 'read_exc', 'read_invalid', 'write', 'assign',
+                ops.append([rng.choice(['read_ok', 'read_same', 'read_err', 'read_sameerr', 'read_const_err', 'read_exc', 'read_invalid', 'write', 'assign',
                                         'assign_same', 'announce_err', 'announce_sameerr', 'wire_read', 'wire_change', 'sleep_short', 'sleep_long']),
                             rng.choice(['x', 'x', 's', 'a']), u * 10 + a])
             plan_.append(ops)
@@ -165,6 +180,10 @@ class World:
                     elif kind == 'read_sameerr':
                         script[(pn, ident())] = E.HardwareError('same')
                         op['offer'] = ('err', 'HardwareError', 'same')
+                    elif kind == 'read_const_err':
+                        # the driver raises one and the same exception OBJECT each time (a module level constant)
+                        script[(pn, ident())] = self.const_err[pn]
+                        op['offer'] = ('err', 'HardwareError', 'constant')
                     elif kind == 'read_exc':
                         script[(pn, ident())] = ZeroDivisionError(f'z{u}')
                         op['offer'] = ('err', 'InternalError', None)
@@ -257,7 +276,7 @@ class World:
             r.violation('C05/exception-escapes-thread', f'{s.escaped[0][:2]}', dict(case, traceback=s.escaped[0][2]))
             return s
         kinds = {op['kind'] for op in oplog}
-        nontrivial = bool(kinds & {'read_err', 'read_exc', 'read_invalid', 'announce_err', 'read_sameerr', 'announce_sameerr'}) or (nactors > 1 and s.npreempt > 0)
+        nontrivial = bool(kinds & {'read_err', 'read_exc', 'read_invalid', 'announce_err', 'read_sameerr', 'announce_sameerr', 'read_const_err'}) or (nactors > 1 and s.npreempt > 0)
         r.case((nactors, strategy[0], s.signature(), tuple(sorted(kinds))), nontrivial)
         if r.want_sample() and nactors > 1 and s.npreempt:
             r.sample({'actors': nactors, 'strategy': strategy[0], 'preemptions': s.npreempt, 'ops': [[o['actor'], o['kind'], o['param']] for o in oplog][:10],
